@@ -215,10 +215,15 @@ def _mutators(f, live, r, assumed=None):
                 t = r.m.resolve_call(f, n)
                 if dotted_of(n.func) in PURE_BUILTINS:
                     continue
+                if t.kind == "class":
+                    init = r.m.lookup_method(t.target, "__init__")
+                    if init is not None:
+                        t = type(t)("func", init, "__init__")
+                        t.is_ctor = True
                 if t.kind == "func":
                     callee = t.target
                     ps = list(callee.params)
-                    off = 1 if (callee.cls is not None and ps and isinstance(n.func, ast.Attribute) and not _static(callee)) else 0
+                    off = 1 if (getattr(t, "is_ctor", False) or (callee.cls is not None and ps and isinstance(n.func, ast.Attribute) and not _static(callee))) else 0
                     verdicts = []
                     for i, a in enumerate(n.args):
                         if isinstance(a, ast.Name) and a.id in live:
@@ -302,6 +307,170 @@ def _verdict_of_return(ret: ast.Return, facts: dict, resvars, convention):
     return "unknown"
 
 
+NORMAL_KINDS = ("n", "t", "f", "loop", "done", "ret", "brk", "cont", "caught", "fall")
+
+
+def _contains_restore(m, r, h, depth=0, seen=None) -> bool:
+    """Does the region of h (h and internal callees, bounded) contain a call with the restore role?"""
+    seen = seen if seen is not None else set()
+    if h.qualname in seen or depth > 3:
+        return False
+    seen.add(h.qualname)
+    for c_ in f_calls(h):
+        if r.role_of_call(h, c_) == "set_shape_memo":
+            return True
+        t = m.resolve_call(h, c_)
+        if t.kind == "func" and t.target.module.short != "_storage" and _contains_restore(m, r, t.target, depth + 1, seen):
+            return True
+    return False
+
+
+def restore_summary(m, r, h, depth=0) -> str:
+    """'always': every normal return of helper h has passed a restore; 'never': its region contains
+    no restore; 'sometimes' otherwise."""
+    if not _contains_restore(m, r, h):
+        return "never"
+    if depth > 2:
+        return "sometimes"
+    g = NoReturn(m).cfg(h)
+    rnodes = set()
+    for n in g.live_nodes():
+        for c_ in node_calls(n):
+            if r.role_of_call(h, c_) == "set_shape_memo":
+                rnodes.add(n.id)
+            else:
+                t = m.resolve_call(h, c_)
+                if t.kind == "func" and t.target is not h and t.target.module.short != "_storage" and restore_summary(m, r, t.target, depth + 1) == "always":
+                    rnodes.add(n.id)
+
+    def transfer(node, st, kind, succ):
+        if node.id in rnodes and kind in NORMAL_KINDS:
+            return (True,)
+        return (st,)
+
+    fl = Flow(g, False, transfer)
+    outs = set(fl.states_at(g.exit))
+    if outs == {True}:
+        return "always"
+    return "sometimes"
+
+
+def cm_restore_summary(m, r, f, expr):
+    """For the context expression of a `with`: does leaving the block restore the bindings?
+    Returns None when the manager has nothing to do with the restore role, else a dict
+    {'exc': True|False|None, 'normal': True|False|None, 'fn': <function holding the restore>}."""
+    # generator-based: @contextmanager def h(...): ... yield ... 
+    if isinstance(expr, ast.Call):
+        t = m.resolve_call(f, expr)
+        if t.kind == "func" and any(isinstance(n, (ast.Yield, ast.YieldFrom)) for n in walk_scope(t.target.node)) \
+                and any("contextmanager" in norm(d) for d in t.target.decorators):
+            h = t.target
+            if not _contains_restore(m, r, h):
+                return None
+            g = NoReturn(m).cfg(h)
+            ynodes = {n.id for n in g.live_nodes() if n.ast is not None and n.kind in ("stmt",) and any(isinstance(x, ast.Yield) for x in ast.walk(n.ast))}
+            if len(ynodes) != 1:
+                return {"exc": None, "normal": None, "fn": h}
+            rnodes = {n.id for n in g.live_nodes() if any(r.role_of_call(h, c_) == "set_shape_memo" for c_ in node_calls(n))}
+
+            raises = {"pre": False, "normal": False, "exc": False}
+
+            def transfer(node, st, kind, succ):
+                phase, restored = st
+                if node.id in ynodes:
+                    phase = "normal" if kind in NORMAL_KINDS else "exc"
+                    return ((phase, False),)
+                if kind not in NORMAL_KINDS and node.kind not in ("unwind", "dispatch", "finally"):
+                    raises[phase] = True
+                if node.id in rnodes:
+                    restored = True
+                return ((phase, restored),)
+
+            fl = Flow(g, ("pre", False), transfer)
+            res = {"exc": set(), "normal": set()}
+            for ex in (g.exit, g.exit_e, g.exit_b):
+                for phase, restored in fl.states_at(ex):
+                    if phase in res:
+                        res[phase].add(restored)
+            pre_restores = any(n.id in rnodes for n in g.live_nodes()) and any(
+                st[0] == "pre" and st[1] for ex in (g.exit, g.exit_e, g.exit_b) for st in fl.states_at(ex))
+            out = {"fn": h}
+            for k in ("exc", "normal"):
+                out[k] = True if res[k] == {True} else False if res[k] in ({False}, set()) else None
+            if pre_restores:
+                out["exc"] = out["normal"] = None
+            out["normal_raises"] = raises["normal"]
+            return out
+    # class-based: object of an evident internal class with __enter__/__exit__
+    ic = m.instance_class(f, expr)
+    if ic is not None:
+        ex_ = m.lookup_method(ic, "__exit__")
+        en_ = m.lookup_method(ic, "__enter__")
+        if ex_ is None or en_ is None:
+            return None
+        if not _contains_restore(m, r, ex_) and not _contains_restore(m, r, en_):
+            return None
+        if _contains_restore(m, r, en_) or len(ex_.params) < 2:
+            return {"exc": None, "normal": None, "fn": ex_}
+        etype = ex_.params[1]
+        g = NoReturn(m).cfg(ex_)
+        rnodes = set()
+        for n in g.live_nodes():
+            for c_ in node_calls(n):
+                if r.role_of_call(ex_, c_) == "set_shape_memo":
+                    rnodes.add(n.id)
+                else:
+                    t = m.resolve_call(ex_, c_)
+                    if t.kind == "func" and t.target.module.short != "_storage" and restore_summary(m, r, t.target) == "always":
+                        rnodes.add(n.id)
+                    elif t.kind == "func" and t.target.module.short != "_storage" and restore_summary(m, r, t.target) == "sometimes":
+                        return {"exc": None, "normal": None, "fn": ex_}
+
+        def case_of(test, truth):
+            t = test
+            pol = truth
+            while isinstance(t, ast.UnaryOp) and isinstance(t.op, ast.Not):
+                pol = not pol
+                t = t.operand
+            if isinstance(t, ast.Name) and t.id == etype:
+                return "exc" if pol else "normal"
+            if isinstance(t, ast.Compare) and len(t.ops) == 1 and isinstance(t.left, ast.Name) and t.left.id == etype \
+                    and isinstance(t.comparators[0], ast.Constant) and t.comparators[0].value is None:
+                if isinstance(t.ops[0], ast.IsNot):
+                    return "exc" if pol else "normal"
+                if isinstance(t.ops[0], ast.Is):
+                    return "normal" if pol else "exc"
+            return None
+
+        raises = {"?": False, "normal": False, "exc": False}
+
+        def transfer(node, st, kind, succ):
+            case, restored = st
+            if node.kind in ("test", "while") and kind in ("t", "f"):
+                c2 = case_of(node.ast, kind == "t")
+                if c2 is not None:
+                    if case != "?" and case != c2:
+                        return ()
+                    case = c2
+            if kind not in NORMAL_KINDS and node.kind not in ("unwind", "dispatch", "finally"):
+                raises[case] = True
+            if node.id in rnodes and kind in NORMAL_KINDS:
+                restored = True
+            return ((case, restored),)
+
+        fl = Flow(g, ("?", False), transfer)
+        res = {"exc": set(), "normal": set()}
+        for case, restored in fl.states_at(g.exit):
+            for k in (("exc", "normal") if case == "?" else (case,)):
+                res[k].add(restored)
+        out = {"fn": ex_}
+        for k in ("exc", "normal"):
+            out[k] = True if res[k] == {True} else False if res[k] in ({False}, set()) else None
+        out["normal_raises"] = raises["normal"] or raises["?"]
+        return out
+    return None
+
+
 def _rollback_typestate(m, r, f, g, muts, restore_calls):
     """clean -> dirty (a call that writes the live memos) -> restored (set_shape_memo(<snapshots>)).
     Returns the findings as (args, kwargs) for ctx.bad, the number of product states, and which
@@ -328,6 +497,16 @@ def _rollback_typestate(m, r, f, g, muts, restore_calls):
 
     # per node classification
     node_mut, node_restore = {}, {}
+    helper_restores = {}  # id(call) -> 'always' | 'sometimes'
+    for c_ in f_calls(f):
+        t_ = m.resolve_call(f, c_)
+        if t_.kind == "func" and t_.target.module.short != "_storage" and t_.target is not f and r.role_of_call(f, c_) != "set_shape_memo":
+            sm = restore_summary(m, r, t_.target)
+            if sm != "never":
+                helper_restores[id(c_)] = sm
+    unmodelled = [c_ for c_ in f_calls(f) if helper_restores.get(id(c_)) == "sometimes"]
+    cm_cache = {}
+    quiet_exit = set()
     for n in g.live_nodes():
         asts = node_eval_asts(n)
         has_m = has_r = False
@@ -337,6 +516,26 @@ def _rollback_typestate(m, r, f, g, muts, restore_calls):
                     has_m = True
                 if isinstance(x, ast.Call) and any(x is c for c in restore_calls):
                     has_r = True
+                if isinstance(x, ast.Call) and helper_restores.get(id(x)) == "always":
+                    has_r = True
+        if n.kind == "with_exit":
+            key = id(n.ast)
+            if key not in cm_cache:
+                cm_cache[key] = cm_restore_summary(m, r, f, n.ast)
+            sm = cm_cache[key]
+            if sm is not None:
+                cont = n.info.get("cont")
+                if not (isinstance(cont, tuple) and cont and cont[0] == "exc") and sm.get("normal_raises") is False:
+                    quiet_exit.add(n.id)  # this manager's exit code cannot raise when the block ended normally
+                which = "exc" if (isinstance(cont, tuple) and cont and cont[0] == "exc") else "normal"
+                if sm[which] is True:
+                    has_r = True
+                    has_m = False
+                elif sm[which] is None:
+                    unmodelled.append(n.ast)
+        if n.kind == "with_enter":
+            # evaluating the context expression (a constructor / generator call) is not a restore
+            has_r = False
         node_mut[n.id], node_restore[n.id] = has_m, has_r
 
     NORMAL = ("n", "t", "f", "loop", "done", "ret", "brk", "cont", "caught")
@@ -344,6 +543,8 @@ def _rollback_typestate(m, r, f, g, muts, restore_calls):
     def transfer(node, st, kind, succ):
         phase, facts = st
         fd = dict(facts)
+        if node.id in quiet_exit and kind not in NORMAL:
+            return ()
         # assignments invalidate facts about the assigned variable (on the normal edge:
         # when the statement raises, the assignment did not happen)
         if node.kind == "stmt" and isinstance(node.ast, ast.Assign) and kind in NORMAL:
@@ -413,6 +614,10 @@ def _rollback_typestate(m, r, f, g, muts, restore_calls):
                 _found("C04.1", f, p.ast if p.ast is not None else f.node,
                         "the function can fall off its end (returning None) with bindings of the check in place")
                 ok = False
+    if found and unmodelled:
+        raise AnalysisError(f"{f.qualname}: the restore is (also) reached through `{short(unmodelled[0], 60)}`, whose effect on each exit the rule "
+                            "cannot summarise; paths that look unrestored may be restored there")
+    _rollback_typestate.carriers = [(k, v) for k, v in cm_cache.items() if v is not None] + [("helper", c_) for c_ in f_calls(f) if helper_restores.get(id(c_)) == "always"]
     return found, fl.steps, node_mut
 
 
@@ -450,6 +655,10 @@ def check_site(ctx: RuleContext, r, site: Site):
     dom = g.dominators()
     mut_nodes = [n for n in g.live_nodes() if node_mut[n.id]]
     need(mut_nodes, f"{f.qualname}: mutating call not found in CFG")
+    carriers = getattr(_rollback_typestate, "carriers", [])
+    if not restore_calls and carriers and not ctx.findings:
+        _verify_carried_snapshots(ctx, m, r, f, site, g, dom, mut_nodes, carriers)
+        return
     need(restore_calls, f"{f.qualname}: hands live memos to a callee but never calls set_shape_memo (C04.1 reports the paths)") if not ctx.findings else None
     slots = site.live
     for rc in restore_calls:
@@ -500,6 +709,91 @@ def _own_params(fn) -> list:
     if fn.cls is not None and ps and ps[0] in ("self", "cls"):
         ps = ps[1:]
     return ps
+
+
+def _verify_carried_snapshots(ctx, m, r, f, site, g, dom, mut_nodes, carriers):
+    """The snapshots are held by an object / a context manager (`snap = _Snapshot(memos)` ...
+    `snap.restore()` / `with snap:`): the restore call inside the holder must pass, slot by slot,
+    attributes (or locals) that were bound to fresh copies of the memos the holder was given, and
+    the holder must be created before the first mutating call, from the live memos."""
+    holders = []  # (function holding the restore call, how the holder is created in f)
+    for key, val in carriers:
+        if key == "helper":
+            t = m.resolve_call(f, val)
+            holders.append(t.target)
+        else:
+            holders.append(val["fn"])
+    checked = 0
+    for h in holders:
+        # the function that actually calls the restore primitive (h itself or a method it calls)
+        stack, seen, sites_ = [h], set(), []
+        while stack:
+            x = stack.pop()
+            if x.qualname in seen:
+                continue
+            seen.add(x.qualname)
+            for c_ in f_calls(x):
+                if r.role_of_call(x, c_) == "set_shape_memo":
+                    sites_.append((x, c_))
+                else:
+                    t = m.resolve_call(x, c_)
+                    if t.kind == "func" and t.target.module.short != "_storage":
+                        stack.append(t.target)
+        for x, rc in sites_:
+            if x.cls is None or not x.params:
+                raise AnalysisError(f"{x.qualname}: restore call inside a helper whose snapshots the rule cannot trace ({norm(rc)})")
+            me = x.params[0]
+            attrs = []
+            for a in rc.args:
+                if isinstance(a, ast.Attribute) and isinstance(a.value, ast.Name) and a.value.id == me:
+                    attrs.append(a.attr)
+            if len(attrs) != 4 or len(rc.args) != 4 or rc.keywords:
+                raise AnalysisError(f"{x.qualname}: restore call with unrecognised arguments: {norm(rc)}")
+            init = m.lookup_method(x.cls, "__init__")
+            need(init is not None and len(init.params) >= 2, f"{x.cls.qualname}: no __init__ taking the memos")
+            p = init.params[1]
+            unpack = [None] * 4
+            if len(init.params) == 5:
+                unpack = init.params[1:5]
+            for n in walk_scope(init.node):
+                if isinstance(n, ast.Assign) and isinstance(n.value, ast.Name) and n.value.id == p and isinstance(n.targets[0], ast.Tuple) and len(n.targets[0].elts) == 4:
+                    unpack = [e.id if isinstance(e, ast.Name) else None for e in n.targets[0].elts]
+            for i, attr in enumerate(attrs):
+                vals = m.instance_attr_values(x.cls, attr)
+                if len(vals) != 1 or vals[0][0] is not init or vals[0][1] is None:
+                    raise AnalysisError(f"{x.cls.qualname}.{attr}: not bound exactly once in __init__")
+                v = vals[0][1]
+                if not (unpack[i] and c05._is_copy_of(v, {unpack[i]})):
+                    others = {u for u in unpack if u}
+                    if c05._is_copy_of(v, others):
+                        ctx.bad("C04.3", x, rc, f"restore argument {i} (`self.{attr}`) is a snapshot of `{_copied_name(v)}`: the memos would be restored into the wrong slots")
+                    elif isinstance(v, ast.Name) and v.id in others:
+                        ctx.bad("C04.2", init, vals[0][0].node, f"`self.{attr}` is the live memo `{v.id}` itself, not a copy: the rollback restores nothing")
+                    else:
+                        raise AnalysisError(f"{x.cls.qualname}.{attr} = {short(v, 50)}: not recognised as a fresh copy of slot {i}")
+                    continue
+                ctx.ok("C04.2", x.qualname, f"slot {i}: `self.{attr}` is a fresh copy of `{unpack[i]}` taken by {x.cls.name}.__init__")
+            # the holder is created from the live memos before the first mutating call
+            ctor_nodes = []
+            for n in g.live_nodes():
+                for c_ in node_calls(n):
+                    t = m.resolve_call(f, c_)
+                    if t.kind == "class" and t.target is x.cls:
+                        ok_args = (len(c_.args) == 1 and isinstance(c_.args[0], ast.Name) and c_.args[0].id == site.tuple_var) or (
+                            len(c_.args) == 4 and [getattr(a, "id", None) for a in c_.args] == site.live) or (
+                            len(c_.args) == 1 and isinstance(c_.args[0], ast.Call) and r.role_of_call(f, c_.args[0]) == "get_shape_memo")
+                        if not ok_args:
+                            raise AnalysisError(f"{f.qualname}: `{short(c_, 60)}` is not given the live memos in a recognised form")
+                        ctor_nodes.append(n)
+            need(ctor_nodes, f"{f.qualname}: creation of the snapshot holder {x.cls.name} not found")
+            for mn in mut_nodes:
+                if not any(cn.id in dom[mn.id] for cn in ctor_nodes):
+                    ctx.bad("C04.2", f, ctor_nodes[0].ast, f"the snapshot holder is not created on every path before the mutating call `{short(mn.ast, 60)}`")
+                    break
+            else:
+                ctx.ok("C04.2", f.qualname, f"{x.cls.name}(<live memos>) is created before the mutating call")
+            checked += 1
+    need(checked, f"{f.qualname}: no restore call found behind the helper / context manager that carries the rollback")
 
 
 def _copies_each_in_order(e, tv) -> bool:
